@@ -569,3 +569,55 @@ def check_no_dropped_futures(ctx, fx, rule, key_rx, label, floor):
     ctx.ob(rule, "%s/every-send-future-is-awaited" % label, not bad, cfg=fx.cfg, site=bad[0][1] if bad else "",
            detail="a future built by a channel send that is dropped without being polled sends nothing: %s" % bad)
 
+
+
+def closure_operand(fx, fn, o):
+    """Fn of the closure that operand `o` holds (a `{closure}` aggregate assigned once, or the constant of a capture-less closure)"""
+    p = o.get("m") or o.get("c")
+    key = None
+    if p is not None and len(p) == 1:
+        for node, kind, pl in fn.defs().get(p[0], []):
+            if kind == "assign" and pl["rv"]["r"] == "agg" and pl["rv"].get("closure"):
+                key = pl["rv"]["closure"]
+    else:
+        for r in fn.roots(o):
+            if r[0] == "const" and str(r[1]).startswith("fn:") and "{closure#" in str(r[1]):
+                key = str(r[1])[3:]
+    if key is None:
+        return None
+    key = fx._alias.get(key, key)
+    return fx.fn(key) if fx.has(key) else None
+
+
+def keeps_iff(cl, call_rx, sign):
+    """The closure `cl` is a keep-predicate that keeps an item exactly when `sign` * (the bool call matching call_rx, applied to the
+    item) holds - whether it is handed to `filter` / `retain` (returns that bool) or to `filter_map` (returns `cond.then_some(item)` /
+    `cond.then(..)`, or `Some(..)` on the edge where the call has that outcome and `None` otherwise).  sign: +1 keep if true, -1 keep
+    if false."""
+    if cl.ret == "bool":
+        rets = closure_returns(cl)
+        return bool(rets) and all(r is not None and r[0] == sign and r[1].matches(call_rx) for r in rets)
+    if not cl.ret.startswith("std::option::Option"):
+        return False
+    sites = cl.ret_sites()
+    if not sites:
+        return False
+    ok_any = False
+    tests = [(c, sw, t, f) for c in cl.calls(call_rx) if c.dest for sw, t, f in cl.bool_tests(c.dest[0])]
+    for node, sh in sites:
+        if all(x.startswith("call:") and re.search(r"bool::(<impl bool>::)?(then_some|then)$", x) for x in sh):
+            c = cl.call_at(node)
+            r = polarity(cl, c.args[0]) if c.args else None
+            if r is None or r[0] != sign or not r[1].matches(call_rx):
+                return False
+            ok_any = True
+        elif all(x.startswith("Some") for x in sh):
+            if not any(cl.only_via(node, sw, [t if sign == 1 else f]) for c, sw, t, f in tests):
+                return False
+            ok_any = True
+        elif all(x == "None" for x in sh):
+            if tests and not any(cl.only_via(node, sw, [f if sign == 1 else t]) for c, sw, t, f in tests):
+                return False
+        else:
+            return False
+    return ok_any
